@@ -3,6 +3,7 @@
 #include <random>
 #include <iostream>
 
+#include <AIToolbox/Seeder.hpp>
 #include <AIToolbox/Utils/Core.hpp>
 #include <AIToolbox/Factored/Bandit/Types.hpp>
 #include <AIToolbox/Factored/Bandit/Algorithms/Utils/VariableElimination.hpp>
@@ -21,7 +22,7 @@ namespace AIToolbox::Factored::Bandit {
         A(std::move(aa)), workersPerVillage_(std::move(workersPerVillage)), productivityPerMine_(std::move(pPerMine)),
         normalizeToOne_(normalizeToOne),
         villagesPerMine_(productivityPerMine_.size()),
-        helper_(productivityPerMine_.size())
+        helper_(productivityPerMine_.size()), rand_(Seeder::getSeed())
     {
         assert(workersPerVillage_.size() == A.size());
         // Last village should have 4 possible mines.
